@@ -1075,9 +1075,12 @@ def instrument(module_obj, modname, qualname, loop_specs, extra_globals=None):
     except (loader.MissingCode, NotImplementedError) as e:
         msg = "contract not anchored: %s:%s - %s (the loop contract has to be re-anchored)" % (modname, qualname, e)
 
-        def not_anchored(*a, **k):
-            raise Undecided(msg)
-        return not_anchored, _CtxProxy()
+        # the stand-in lives in a copy of the module's namespace, like a successfully instrumented function would, so
+        # harnesses that patch callees through fn.__globals__ keep working
+        ns = dict(vars(module_obj))
+        ns["__pyvc_undecided"], ns["__pyvc_msg"] = Undecided, msg
+        exec("def not_anchored(*a, **k):\n    raise __pyvc_undecided(__pyvc_msg)\n", ns)
+        return ns["not_anchored"], _CtxProxy()
 
 
 def _instrument(module_obj, modname, qualname, loop_specs, extra_globals=None):
